@@ -7,6 +7,7 @@ import (
 	"strings"
 
 	"github.com/apmckinlay/gsuneido/db19"
+	"github.com/apmckinlay/gsuneido/db19/meta/schema"
 	"github.com/apmckinlay/gsuneido/db19/stor"
 	"github.com/apmckinlay/gsuneido/verifshim/vsched"
 
@@ -26,9 +27,21 @@ type Scenario struct {
 	// (with MaxAge = 1 each tick can time out running transactions).
 	Ticks    int
 	MaxBound int
+	// Admin: schema changes run by an extra "admin" thread, in order.
+	Admin []AdminOp
 	// Heavy scenarios (3 clients: the free choices at blocking points multiply)
 	// are explored in the thorough tier only.
 	Heavy bool
+	// FreeCost 1 = delay bounding (every non-default scheduling choice costs).
+	FreeCost int
+}
+
+// AdminOp is a schema change executed by the admin thread while clients run.
+type AdminOp struct {
+	Kind  string // "altercreate" (add an index to a populated table) | "ensure"
+	Table string
+	Mode  byte     // index mode 'i' | 'u' | 'k'
+	Cols  []string // index columns
 }
 
 // TranRec is what one executed transaction observed.
@@ -82,17 +95,18 @@ type Oracles struct {
 }
 
 type exec struct {
-	sc      *Scenario
-	or      Oracles
-	db      *db19.Database
-	init    MDB
-	trans   []*TranRec
-	states  []pubState
-	last    *db19.DbState
-	final   *db19.DbState
-	fail    *sched.Failure
-	oldAge  int
-	started bool
+	sc       *Scenario
+	or       Oracles
+	db       *db19.Database
+	init     MDB
+	trans    []*TranRec
+	states   []pubState
+	last     *db19.DbState
+	final    *db19.DbState
+	fail     *sched.Failure
+	oldAge   int
+	started  bool
+	adminObs []string
 }
 
 func (x *exec) failf(format string, a ...any) {
@@ -138,6 +152,25 @@ func (x *exec) Main() {
 			defer wg.Done()
 			for si, s := range scripts {
 				x.runTran(ci, si, s)
+			}
+		})
+	}
+	if len(x.sc.Admin) > 0 {
+		wg.Add(1)
+		vsched.GoNamed("admin", false, func() {
+			defer wg.Done()
+			for _, a := range x.sc.Admin {
+				sc := &schema.Schema{Table: a.Table,
+					Indexes: []schema.Index{{Mode: a.Mode, Columns: append([]string{}, a.Cols...)}}}
+				e := try(func() {
+					switch a.Kind {
+					case "altercreate":
+						x.db.AlterCreate(sc)
+					case "ensure":
+						x.db.Ensure(sc)
+					}
+				})
+				x.adminObs = append(x.adminObs, fmt.Sprint(a.Kind, " ", a.Table, a.Cols, " -> ", e))
 			}
 		})
 	}
@@ -240,7 +273,7 @@ func (x *exec) checkIndexes(st *db19.DbState) {
 	for _, t := range Schema {
 		sc := rt.GetSchema(t.Name)
 		var base []uint64
-		for i := range t.Indexes {
+		for i := range sc.Indexes { // the real schema: indexes may have been added
 			var keys []string
 			var offs []uint64
 			if e := try(func() { keys, offs = indexEntries(rt, t.Name, i) }); e != nil {
@@ -396,6 +429,9 @@ func (x *exec) Finish(out vsched.Outcome) (string, *sched.Failure) {
 		obs.WriteString(tr.String())
 		obs.WriteString(" ")
 	}
+	for _, a := range x.adminObs {
+		obs.WriteString("admin{" + a + "} ")
+	}
 	if x.fail != nil {
 		return obs.String(), x.fail
 	}
@@ -547,6 +583,34 @@ func (x *exec) Finish(out vsched.Outcome) (string, *sched.Failure) {
 			return obs.String(), &sched.Failure{Msg: fmt.Sprintf("full check of the final persisted state failed: %v", e)}
 		}
 	}
+	if x.or.IndexAgree || x.or.MergePersist {
+		// differential: the state as re-read from storage at the persisted offset
+		// must have the same content and agreeing indexes as the live state
+		var re *db19.DbState
+		if e := try(func() { re = db19.ReadState(x.db.Store, x.final.Off) }); e != nil {
+			return obs.String(), &sched.Failure{Msg: fmt.Sprintf("re-reading the persisted state failed: %v", e)}
+		}
+		var rc MDB
+		if e := try(func() { rc = Content(x.db, re) }); e != nil {
+			return obs.String(), &sched.Failure{Msg: fmt.Sprintf("reading the re-read persisted state panicked: %v", e)}
+		}
+		if rc.Canon() != finalContent.Canon() {
+			return obs.String(), &sched.Failure{Msg: fmt.Sprintf(
+				"the persisted state re-read from storage holds %s but the live state it was written from holds %s", rc.Canon(), finalContent.Canon())}
+		}
+		x.checkIndexes(re)
+		if x.fail != nil {
+			x.fail.Msg = "in the persisted state re-read from storage: " + x.fail.Msg
+			return obs.String(), x.fail
+		}
+		if e := try(func() {
+			if err := db19.VerifCheckState(re, true); err != nil {
+				panic(err)
+			}
+		}); e != nil {
+			return obs.String(), &sched.Failure{Msg: fmt.Sprintf("full check of the persisted state re-read from storage failed: %v", e)}
+		}
+	}
 	if x.or.MergePersist {
 		if e := try(func() { x.final.Meta.CheckAllMerged() }); e != nil {
 			return obs.String(), &sched.Failure{Msg: fmt.Sprintf("after the final persist not everything is merged: %v", e)}
@@ -614,6 +678,7 @@ func (x *exec) checkSnapshot(tr *TranRec) *sched.Failure {
 // NewExecution builds a sched.Scenario for the given scenario and oracles.
 func NewScenario(sc *Scenario, or Oracles) *sched.Scenario {
 	return &sched.Scenario{Name: sc.Name, MaxBound: sc.MaxBound, TimerBudget: sc.Ticks, MaxSteps: 60000,
+		FreeCost:  sc.FreeCost,
 		Symmetric: []string{"startMergeWorkers", "startExecPersistMulti"},
 		New:       func() sched.Execution { return &exec{sc: sc, or: or} }}
 }
